@@ -235,6 +235,21 @@ class Inliner:
                 out.append(st)
         return out
 
+    def returns_to_raise(self, stmts: List[ast.stmt]) -> List[ast.stmt]:
+        out: List[ast.stmt] = []
+        for st in stmts:
+            if isinstance(st, ast.Return) and st.value is not None:
+                r = ast.Raise(exc=st.value, cause=None)
+                ast.copy_location(r, st)
+                out.append(r)
+            elif isinstance(st, ast.If):
+                new = ast.If(test=st.test, body=self.returns_to_raise(st.body) or [ast.Pass()], orelse=self.returns_to_raise(st.orelse))
+                ast.copy_location(new, st)
+                out.append(new)
+            else:
+                out.append(st)
+        return out
+
     def expand_stmt(self, st: ast.stmt, depth: int) -> Optional[List[ast.stmt]]:
         call = None
         kind = None
@@ -246,6 +261,8 @@ class Inliner:
             call, kind = strip_cast(st.value), "assign"
         elif isinstance(st, ast.AnnAssign) and st.value is not None and isinstance(strip_cast(st.value), ast.Call):
             call, kind = strip_cast(st.value), "assign"
+        if isinstance(st, ast.Raise) and st.exc is not None and st.cause is None and isinstance(strip_cast(st.exc), ast.Call):
+            call, kind = strip_cast(st.exc), "raise"
         if call is None:
             return None
         tgt = self.target(call)
@@ -262,6 +279,9 @@ class Inliner:
         body = _guards_to_else(body)
         if not _tail_returns_only(body):
             return None
+        if kind == "raise":
+            # raise helper(...): the helper builds the exception object; its returns become raises
+            return self.block(self.returns_to_raise(body), depth + 1)
         target = None
         if kind == "assign":
             target = st.targets[0] if isinstance(st, ast.Assign) else st.target  # type: ignore[union-attr]
